@@ -195,6 +195,14 @@ func c20ValueHistory(c *Ctx, r *rng.R) {
 			}
 		}
 		addPath("base", base)
+		// siblings: several children of the same parent by each deriving method; each one stays what it was when the
+		// next is made (a parent with spare capacity must not lend it to its children)
+		for k := 0; k < 2; k++ {
+			addPath(fmt.Sprintf("base/attr%d", k), base.GetAttr(fmt.Sprintf("s%d", k)))
+			addPath(fmt.Sprintf("base/int%d", k), base.IndexInt(k))
+			addPath(fmt.Sprintf("base/str%d", k), base.IndexString(fmt.Sprintf("k%d", k)))
+			addPath(fmt.Sprintf("base/idx%d", k), base.Index(cty.NumberIntVal(int64(10+k))))
+		}
 		psetFP = psfp()
 	}
 	n := 6 + r.Intn(10)
